@@ -7,6 +7,7 @@
           implementation's own transcript, and a `STATS` trailer.
 -/
 import Driver.WorldDom
+import Std.Data.HashSet
 open SpecsModel SpecsModel.Driver
 
 structure WState where
@@ -25,15 +26,29 @@ structure WState where
   reuses : Nat := 0
   errKills : Nat := 0
   staleQueries : Nat := 0
+  caseHash : UInt64 := 0
+  caseNontrivial : Bool := false
+  distinct : Std.HashSet UInt64 := {}
+  distinctNontrivial : Nat := 0
+
+/-- Close the current case: count it if its op script is new and it hit an interesting branch
+    (index reuse, failed deletion, query through a dead handle). -/
+def WState.closeCase (st : WState) : WState :=
+  if st.lineNo = 0 then st
+  else if st.distinct.contains st.caseHash then st
+  else { st with distinct := st.distinct.insert st.caseHash,
+                 distinctNontrivial := st.distinctNontrivial + (if st.caseNontrivial then 1 else 0) }
 
 def worldLine (st : WState) (line : String) : WState × List String :=
   let (l, r) := splitArrow line
   match toks l with
   | ["case", id] =>
-    ({ st with caseId := id, lineNo := 0, model := {}, diverged := false, mon := {},
+    let st := st.closeCase
+    ({ st with caseHash := 7, caseNontrivial := false, caseId := id, lineNo := 0, model := {}, diverged := false, mon := {},
                monLog := #[], monDead := false, cases := st.cases + 1 }, [])
   | lt =>
-    let st := { st with lineNo := st.lineNo + 1, lines := st.lines + 1 }
+    let st := { st with lineNo := st.lineNo + 1, lines := st.lines + 1,
+                        caseHash := mixHash st.caseHash (hash l) }
     match parseEOp lt with
     | none => (st, [s!"BAD case={st.caseId} line={st.lineNo} unparsable op: {l}"])
     | some op =>
@@ -58,10 +73,10 @@ def worldLine (st : WState) (line : String) : WState × List String :=
           else
             let (evs, log') := entEvents st.monLog op ires
             let st := evs.foldl (fun st ev => match ev with
-              | .created e => if e.gen > 1 then { st with reuses := st.reuses + 1 } else st
-              | .kill _ (.err _) => { st with errKills := st.errKills + 1 }
-              | .killAtomic _ false => { st with errKills := st.errKills + 1 }
-              | .isAlive _ false => { st with staleQueries := st.staleQueries + 1 }
+              | .created e => if e.gen > 1 then { st with reuses := st.reuses + 1, caseNontrivial := true } else st
+              | .kill _ (.err _) => { st with errKills := st.errKills + 1, caseNontrivial := true }
+              | .killAtomic _ false => { st with errKills := st.errKills + 1, caseNontrivial := true }
+              | .isAlive _ false => { st with staleQueries := st.staleQueries + 1, caseNontrivial := true }
               | _ => st) st
             match st.mon.run evs with
             | .ok s' => ({ st with mon := s', monLog := log' }, [])
@@ -86,5 +101,6 @@ def main : IO Unit := do
   match toks first with
   | ["domain", "world"] =>
     let st ← worldLoop stdin {}
-    IO.println s!"STATS cases={st.cases} lines={st.lines} diffs={st.diffs} mons={st.mons} reuses={st.reuses} err_kills={st.errKills} dead_queries={st.staleQueries}"
+    let st := st.closeCase
+    IO.println s!"STATS cases={st.cases} lines={st.lines} diffs={st.diffs} mons={st.mons} reuses={st.reuses} err_kills={st.errKills} dead_queries={st.staleQueries} distinct={st.distinct.size} distinct_nontrivial={st.distinctNontrivial}"
   | _ => IO.println s!"BAD unknown domain line: {first}"
